@@ -104,6 +104,11 @@ pub fn run(ctx: &Ctx) -> Option<Report> {
             rep.merge(run_cases(ctx, 3, 8, "", |i, _seed, r| resume_oversize_ids(i, r)));
         }
         "C14" => rep.merge(run_cases(ctx, 2, 8, "", |i, _seed, r| size_boundaries(i, r))),
+        "C05" => {
+            rep.merge(run_cases(ctx, 4, 4, "", |i, _seed, r| huge_frames(i, r)));
+            rep.merge(run_cases(ctx, 5, 2, "", |i, _seed, r| many_exchanges_u32(i, r, "C05")));
+        }
+        "C12" => rep.merge(run_cases(ctx, 5, 2, "", |i, _seed, r| many_exchanges_u32(i, r, "C12"))),
         _ => {}
     }
     Some(rep)
@@ -238,6 +243,167 @@ fn resume_oversize_ids(i: u64, rep: &mut Report) {
             }
         }
     }
+}
+
+/// C05 (directed, extreme values): frames whose Remaining Length is at or next to the largest encodable value
+/// (268 435 455), among them an alias-only PUBLISH whose alias is bound (the resolved packet would need a longer
+/// Remaining Length than exists) - no panic, consumed exactly, delivered or reported
+fn huge_frames(i: u64, rep: &mut Report) {
+    use crate::apkt::*;
+    use crate::conn::*;
+    use crate::refcodec as rc;
+    let idw = if i % 2 == 0 { 2 } else { 4 };
+    let as_client = (i / 2) % 2 == 0;
+    let role = if as_client { Role::Client } else { Role::Server };
+    let ver = Ver::V5;
+    const MAXRL: usize = 268_435_455;
+    for (what, rl, alias_only, qos) in [("alias-only PUBLISH, Remaining Length max", MAXRL, true, 0u8), ("alias-only PUBLISH, Remaining Length max-10, QoS 1", MAXRL - 10, true, 1), ("PUBLISH with topic, Remaining Length max", MAXRL, false, 0), ("alias-only PUBLISH just small enough", MAXRL - 16, true, 2)] {
+        let mut c = new_conn(role, idw, LVer::V5);
+        let connect = Pkt::Connect { ver, clean: true, keep_alive: 0, client_id: b"c".to_vec(), will: None, user: None, pass: None, props: if as_client { vec![p_u16(P_TAM, 4)] } else { vec![] } };
+        let connack = Pkt::Connack { ver, sp: false, code: 0, props: if as_client { vec![] } else { vec![p_u16(P_TAM, 4)] } };
+        let ok = if as_client { c.send(&connect, Via::Dynamic).is_ok() && c.recv(&rc::encode(&connack, idw)).is_ok() } else { c.recv(&rc::encode(&connect, idw)).is_ok() && c.send(&connack, Via::Dynamic).is_ok() };
+        if !ok {
+            continue;
+        }
+        // bind alias 1 to a 14-byte topic
+        let _ = c.recv(&rc::encode(&Pkt::Publish { ver, dup: false, qos: 0, retain: false, topic: b"topic/long/abc".to_vec(), id: None, props: vec![p_u16(P_TA, 1)], payload: vec![] }, idw));
+        let mut f: Vec<u8> = vec![0x30 | (qos << 1)];
+        rc::vbi_encode(rl as u32, &mut f);
+        let head = f.len();
+        if alias_only {
+            f.extend_from_slice(&[0, 0]);
+        } else {
+            f.extend_from_slice(&[0, 1, b't']);
+        }
+        if qos > 0 {
+            f.extend_from_slice(&vec![0u8; idw - 1]);
+            f.push(5);
+        }
+        if alias_only {
+            f.extend_from_slice(&[3, 0x23, 0, 1]);
+        } else {
+            f.push(0);
+        }
+        f.resize(head + rl, b'p');
+        rep.evaluations += 1;
+        rep.api_calls += 1;
+        rep.hit("X9-frames-at-the-largest-remaining-length");
+        rep.distinct_case(format!("huge {} {:?} {}", what, role, idw).as_bytes());
+        let fail = |rep: &mut Report, sig: &str, whatf: String| {
+            rep.violate(Violation { property: "C05".into(), rule: "X9-frames-at-the-largest-remaining-length".into(), signature: format!("C05.X9-frames-at-the-largest-remaining-length@{}", sig), what: whatf, witness: json!({"role": format!("{:?}", role), "id_width": idw, "frame": what, "remaining_length": rl}), case: (4, i) });
+        };
+        match c.recv(&f) {
+            Err(pn) => fail(rep, &format!("panic;alias_only={}", alias_only), format!("recv of a {} ({} bytes) panicked: {}", what, f.len(), pn.message)),
+            Ok((evs, n)) => {
+                let delivered = evs.iter().any(|e| matches!(e, Ev::Recv { .. }));
+                let err = evs.iter().any(|e| e.is_error());
+                if n != f.len() {
+                    fail(rep, "consumed", format!("recv of a {} consumed {} of {} bytes", what, n, f.len()));
+                } else if !delivered && !err {
+                    fail(rep, "silent", format!("recv of a {} neither delivered nor reported: {}", what, evs_short(&evs)));
+                }
+            }
+        }
+    }
+}
+
+/// C05 / C12 (directed, extreme values): a u32-id session with more stored exchanges than a u16 can count (65 536 + 3) is
+/// resumed under Receive Maximum 10: no vacancy, nothing more accepted; then the peer acknowledges every one of them - no
+/// panic, and the vacancy comes back only when fewer than 10 are left
+fn many_exchanges_u32(i: u64, rep: &mut Report, prop: &str) {
+    use crate::apkt::*;
+    use crate::conn::*;
+    use crate::refcodec as rc;
+    let as_client = i % 2 == 0;
+    let role = if as_client { Role::Client } else { Role::Any };
+    let ver = Ver::V5;
+    let idw = 4;
+    let n: u32 = 65_536 + 3;
+    let mut c = new_conn(role, idw, LVer::V5);
+    let rule = if prop == "C12" { "F4-receive-maximum-with-more-than-65535-exchanges" } else { "X10-more-than-65535-exchanges" };
+    let fail = |rep: &mut Report, sig: &str, what: String| {
+        // (C05 speaks about panics and wedged connections; the counting is C12's subject)
+        if prop == "C05" && !sig.starts_with("panic") {
+            rep.count("many_exchanges_ended_by_a_C12_matter");
+            return;
+        }
+        rep.violate(Violation { property: prop.into(), rule: rule.into(), signature: format!("{}.{}@{}", prop, rule, sig), what, witness: json!({"role": format!("{:?}", role), "stored": n}), case: (5, i) });
+    };
+    let handshake = |c: &mut Box<dyn Conn>, rm: Option<u16>, sp: bool| -> Result<Vec<Ev>, String> {
+        let rmp: Vec<Prop> = rm.map(|m| vec![p_u16(P_RM, m)]).unwrap_or_default();
+        let mut cp = vec![p_u32(P_SEI, 100)];
+        if !as_client {
+            cp.extend(rmp.clone());
+        }
+        let connect = Pkt::Connect { ver, clean: false, keep_alive: 0, client_id: b"c".to_vec(), will: None, user: None, pass: None, props: cp };
+        let connack = Pkt::Connack { ver, sp, code: 0, props: if as_client { rmp } else { vec![] } };
+        if as_client {
+            c.send(&connect, Via::Dynamic).map_err(|p| p.message)?;
+            c.recv(&rc::encode(&connack, idw)).map(|x| x.0).map_err(|p| p.message)
+        } else {
+            c.recv(&rc::encode(&connect, idw)).map_err(|p| p.message)?;
+            match c.send(&connack, Via::Dynamic).map_err(|p| p.message)? {
+                SendOutcome::Events(e) => Ok(e),
+                _ => Err("CONNACK not built".into()),
+            }
+        }
+    };
+    rep.evaluations += 1;
+    rep.hit(rule);
+    rep.distinct_case(format!("many exchanges {:?} {}", role, prop).as_bytes());
+    if let Err(e) = handshake(&mut c, None, false) {
+        return fail(rep, "setup", e);
+    }
+    for _ in 0..n {
+        let Ok(Ok(id)) = c.acquire() else { return fail(rep, "setup", "acquire failed".into()) };
+        let p = Pkt::Publish { ver, dup: false, qos: 1, retain: false, topic: b"t".to_vec(), id: Some(id), props: vec![], payload: vec![] };
+        match c.send(&p, Via::Dynamic) {
+            Ok(SendOutcome::Events(e)) if !e.iter().any(|x| x.is_error()) => {}
+            other => return fail(rep, "setup", format!("publish refused without a Receive Maximum: {:?}", other.map(|_| ()).map_err(|p| p.message))),
+        }
+    }
+    rep.api_calls += 2 * n as u64;
+    let _ = c.notify_closed();
+    let resent = match handshake(&mut c, Some(10), true) {
+        Ok(e) => e.iter().filter(|x| matches!(x, Ev::Send { pkt: Pkt::Publish { .. }, .. })).count(),
+        Err(e) => return fail(rep, "panic;where=resume", format!("resume with {} stored exchanges panicked: {}", n, e)),
+    };
+    if resent != n as usize {
+        return fail(rep, "resend", format!("{} of {} stored PUBLISHes retransmitted", resent, n));
+    }
+    match c.vacancy() {
+        Ok(Some(0)) => {}
+        other => return fail(rep, "vacancy-after-resume", format!("{} exchanges are incomplete, Receive Maximum 10, but get_receive_maximum_vacancy_for_send() = {:?}", n, other.map_err(|p| p.message))),
+    }
+    // nothing more is accepted
+    if let Ok(Ok(id)) = c.acquire() {
+        let p = Pkt::Publish { ver, dup: false, qos: 1, retain: false, topic: b"t".to_vec(), id: Some(id), props: vec![], payload: vec![] };
+        match c.send(&p, Via::Dynamic) {
+            Ok(SendOutcome::Events(e)) if e.iter().any(|x| matches!(x, Ev::Error(m) if m == "ReceiveMaximumExceeded")) => {}
+            other => return fail(rep, "accepted-beyond-limit", format!("a further QoS 1 PUBLISH with {} exchanges incomplete and Receive Maximum 10: {:?}", n, other.map(|o| format!("{:?}", o)).map_err(|p| p.message))),
+        }
+    }
+    // the peer acknowledges all of them
+    for k in 1..=n {
+        let frame = rc::encode(&Pkt::Ack { ver, kind: AckKind::Puback, id: k, code: None, props: None }, idw);
+        match c.recv(&frame) {
+            Err(pn) => return fail(rep, "panic;where=ack", format!("recv of PUBACK #{} panicked: {}", k, pn.message)),
+            Ok((evs, _)) => {
+                if evs.iter().any(|e| e.is_error()) {
+                    return fail(rep, "ack-refused", format!("PUBACK #{} for a retransmitted PUBLISH: {}", k, evs_short(&evs)));
+                }
+            }
+        }
+        let left = n - k;
+        if left == 12 || left == 10 || left == 9 || left == 3 || left == 0 {
+            let want = if left >= 10 { 0 } else { 10 - left as u16 };
+            match c.vacancy() {
+                Ok(Some(v)) if v == want => {}
+                other => return fail(rep, "vacancy-while-acking", format!("{} exchanges left, Receive Maximum 10: vacancy {:?}, expected {}", left, other.map_err(|p| p.message), want)),
+            }
+        }
+    }
+    rep.api_calls += n as u64;
 }
 
 /// C14: limits exactly at size-1 / size / size+1 of the very packet, for every send path
